@@ -8,11 +8,17 @@ C04 driver. Line kinds:
         (SA / LN = given to Tracer.Start as WithAttributes / WithLinks; same model ops)
   kvs = `-` or `kv,kv,…`; kv = <hex key>=<value>; value = N | B:0/1 | I:<dec> | F:f<16 hex> | S:<hex> | BS:0;1 | IS:1;2 | FS:f…;f… | SS:x…;x…
   snapshot = <hex name> <status code> <hex desc> <kvs> <dropped attrs> <events> <dropped events> <links> <dropped links>
+  spanb <gen> <6 limits> <hex name> <cap,cap,…> | <cop> | … => <#OnEnd> <snapshot> ## <snapshot> ## <array> … <spare>
+        cop = op · wr <b> <off> <kvs> · sab|SAB <segs> · evb <hex name> <segs> · reb <hex msg|-> <segs> · lnb|LNB <sc> <seg>
+        seg = <b>:<off>:<n>; segs = `-` or seg+seg+…; array = kvs over the whole capacity; spare = cells of the spare
+        capacity of the option/link slices handed to the SDK that were written (0 expected)
+        (caller scripts: Caller.lean / Alias.lean; zz_verif_c04_alias_test.go)
   events = `-` or `<hex name>~<kvs>~<dropped>+…`; links = `-` or `<tid>:<sid>:<ts>~<kvs>~<dropped>+…`
 -/
 import Otel.Base.Truncate
 import Otel.C04.Model
 import Otel.C04.Spec
+import Otel.C04.Alias
 open Otel Otel.Wire Otel.Utf8 Otel.C04
 
 namespace Otel.C04.Drv
@@ -206,6 +212,75 @@ def spanLine (ls : List String) (name0 : String) (rest obs : List String) : Opti
          -- the (long) canonical model result is only needed in replay files, i.e. when something is wrong
          model := if agree && ok then "=" else s!"{wantEnds} {renderSnap mAtEnd} ## {renderSnap mFinal}" }
 
+def parseSeg (s : String) : Option Seg :=
+  match s.splitOn ":" with
+  | [a, b, c] => do pure ⟨← a.toNat?, ← b.toNat?, ← c.toNat?⟩
+  | _ => none
+
+def parseSegs (s : String) : Option (List Seg) :=
+  if s == "-" then some [] else (s.splitOn "+").mapM parseSeg
+
+def parseCOp : List String → Option COp
+  | ["wr", b, off, kvs] => do pure (.write (← b.toNat?) (← off.toNat?) (← parseKVs kvs))
+  | ["sab", segs] | ["SAB", segs] => (parseSegs segs).map .setAttrsFrom
+  | ["evb", n, segs] => do pure (.addEventFrom (← parseHex n) (← parseSegs segs))
+  | ["reb", m, segs] =>
+    if m == "-" then (parseSegs segs).map (.recordErrorFrom none)
+    else do pure (.recordErrorFrom (some (errorsNewType, ← parseHex m)) (← parseSegs segs))
+  | ["lnb", sc, seg] | ["LNB", sc, seg] => do pure (.addLinkFrom (← parseSC sc) (← parseSeg seg))
+  | toks => (parseOp toks).map .plain
+
+def segSpare (bufs : Bufs) (s : Seg) : Bool := s.off + s.n < (bufs.getD s.b []).length
+
+/-- branch accounting of the caller layer -/
+def copTags : Bufs → Bool → List COp → List String
+  | _, _, [] => []
+  | bufs, used, .write b off kvs :: tl =>
+    (if used then "cb-write-after-use" else "cb-write") :: copTags (writeBuf bufs b off kvs) used tl
+  | bufs, _, .setAttrsFrom segs :: tl => "cb-sab" :: copTags bufs (segs.any (·.n > 0)) tl
+  | bufs, used, .addEventFrom _ segs :: tl =>
+    ["cb-evb"] ++ (if segs.length > 1 then ["cb-multi-opt"] else []) ++
+      (if segs.any (segSpare bufs) then ["cb-spare-cap"] else []) ++ copTags bufs (used || segs.any (·.n > 0)) tl
+  | bufs, used, .recordErrorFrom e segs :: tl =>
+    ["cb-reb"] ++ (if e.isSome && segs.any (segSpare bufs) then ["cb-reb-spare-cap"] else []) ++
+      copTags bufs (used || segs.any (·.n > 0)) tl
+  | bufs, used, .addLinkFrom _ _ :: tl => "cb-lnb" :: copTags bufs used tl
+  | bufs, used, .plain _ :: tl => copTags bufs used tl
+
+def spanbLine (ls : List String) (name0 caps0 : String) (rest obs : List String) : Option Verdict := do
+  let [a, b, c, d, e, f] := ls | none
+  let lim : Limits := ⟨← a.toInt?, ← b.toInt?, ← c.toInt?, ← d.toInt?, ← e.toInt?, ← f.toInt?⟩
+  let name ← parseHex name0
+  let caps ← (caps0.splitOn ",").mapM String.toNat?
+  let groups := (splitOnTok "|" rest).filter (fun g => !g.isEmpty)
+  let cops ← groups.mapM parseCOp
+  let (ends, obs') ← match obs with
+    | n :: tl => do pure (← n.toNat?, tl)
+    | [] => none
+  let [o1, o2, o3] := splitOnTok "##" obs' | none
+  let atEnd ← parseSnap o1
+  let live ← parseSnap o2
+  let bufs ← (o3.take caps.length).mapM parseKVs
+  let [spare0] := o3.drop caps.length | none
+  let spare ← spare0.toNat?
+  let isEnd : COp → Bool := fun c => c == .plain .end_
+  let pre := cops.takeWhile (fun c => !isEnd c)
+  let hasEnd := cops.any isEnd
+  let mAtEnd := snapshot (crun lim (cinit name caps) (pre ++ [.plain .end_])).span
+  let fin := crun lim (cinit name caps) cops
+  let mFinal := snapshot fin.span
+  let wantEnds := if hasEnd then 1 else 0
+  let agree := atEnd == mAtEnd && live == mFinal && ends == wantEnds && bufs == fin.bufs && spare == 0
+  let ok := Spec.callerScriptOK lim name caps cops atEnd live bufs &&
+    Spec.exportWellFormed lim atEnd && Spec.exportWellFormed lim live && ends == wantEnds && spare == 0
+  let ctags := (copTags (initBufs caps) false cops).foldl (fun a t => if a.contains t then a else t :: a) []
+  let tags := (allTags lim (init name) (resolveAll (initBufs caps) cops) ctags).reverse
+  let nontrivial := tags.contains "cb-write-after-use"
+  pure { agree := agree, spec := if ok then "ok" else "FAIL", nontrivial := nontrivial,
+         branches := if tags.isEmpty then "-" else ",".intercalate tags,
+         model := if agree && ok then "="
+           else s!"{wantEnds} {renderSnap mAtEnd} ## {renderSnap mFinal} ## {" ".intercalate (fin.bufs.map renderKVs)} 0" }
+
 end Otel.C04.Drv
 
 open Otel.C04.Drv in
@@ -230,6 +305,8 @@ def stepLine (_ : Unit) (toks : List String) : Unit × Option Verdict :=
     | _, _, _ => ((), none)
   | "span" :: _ :: a :: b :: c :: d :: e :: f :: name0 :: rest, obs =>
     ((), spanLine [a, b, c, d, e, f] name0 rest obs)
+  | "spanb" :: _ :: a :: b :: c :: d :: e :: f :: name0 :: caps0 :: rest, obs =>
+    ((), spanbLine [a, b, c, d, e, f] name0 caps0 rest obs)
   | _, _ => ((), none)
 
 def main : IO Unit := Wire.run () stepLine
